@@ -817,7 +817,20 @@ where
 
             let missing = matches!(err, Message::Missing(_));
 
-            if catch || (missing && orig_args.len() == args.len()) || (!missing && err.can_catch())
+            // Once command line supplied at least one item a value from a fallback source,
+            // such as an environment variable, must not be used: the item is absent rather
+            // than invalid even if this value fails to parse.
+            let stale_fallback = *len != usize::MAX
+                && orig_args.len() == args.len()
+                && matches!(
+                    err,
+                    Message::ParseFailed(None, _) | Message::GuardFailed(None, _)
+                );
+
+            if catch
+                || stale_fallback
+                || (missing && orig_args.len() == args.len())
+                || (!missing && err.can_catch())
             {
                 std::mem::swap(&mut orig_args, args);
                 #[cfg(feature = "autocomplete")]
